@@ -167,6 +167,10 @@ class HeapExec(DynExec):
         for k, v in uni.items():
             if k == '__class_axioms__':
                 continue
+            if k == '__ttype_in__':
+                # stated shape of the segment: every element's token type lies in the given family (e.g. whitespace runs)
+                st.assume(self._b(self.contains(tt, v, st)))
+                continue
             if k == '__values_nonempty__':
                 # stated invariant of the segment: every element's value is non-empty (C01 for leaves, I3/I4 for groups)
                 st.assume(z3.Length(val.z) >= 1)
@@ -876,6 +880,16 @@ class HeapExec(DynExec):
             return loops._for_over(self, stmt, st, itr, key, lc)
         if isinstance(it, Rec) and it.kind == 'Token':
             it = self.getattr(it, 'tokens', st)
+        if isinstance(it, Opaque) and it.name == 'reversed' and lc and lc.get('cut') and isinstance(it.data, LRef):
+            # reversed(L) iterated in order under a loop invariant: the K-th visited element is L[len(L) - 1 - K]
+            seq = it.data
+            n = self.zlen(st, seq)
+
+            def at_rev(ex_, s, k):
+                return ex_.elem_at(s, seq, z3.simplify(n - 1 - ex_.z_int(k)))
+            itr = self.new_obj(st, 'seq_iter', {'SEQ': seq, 'K': 0, 'N': SInt(z3.simplify(n)), 'AT': at_rev})
+            from . import loops
+            return loops._for_over(self, stmt, st, itr, key, lc)
         if isinstance(it, Opaque) and it.name == 'reversed':
             if not (lc and lc.get('arbitrary')):
                 raise OutsideSubset('for over reversed(list) outside an arbitrary-element loop')
